@@ -42,8 +42,10 @@ CU2 == CU1 \cup {Imp(a, b) : a \in CU1, b \in {EV(0), SV(0)}} \cup {Ex(v, a) : v
 Plugs == {EV(0), EV(1), SV(0), SV(1), Imp(SV(0), EV(1)), Ex(0, EV(1)), Mu(1, SV(0))}
 SpecCases == SetToSeq(CU2)
 D2 == 1..2
+AppTables == {[z \in D2 \X D2 |-> {z[1]}], [z \in D2 \X D2 |-> IF z[1] = z[2] THEN D2 ELSE {}],
+              [z \in D2 \X D2 |-> {3 - z[2]}]}
 ModelsFor(q) == {[dom |-> D2, sym |-> [i \in {0} |-> s], app |-> am] :
-                   s \in SUBSET D2, am \in IF HasApp(q) THEN [D2 \X D2 -> SUBSET D2] ELSE {[z \in D2 \X D2 |-> {}]}}
+                   s \in SUBSET D2, am \in IF HasApp(q) THEN AppTables ELSE {[z \in D2 \X D2 |-> {}]}}
 Valns == [e : [Ids -> D2], s : [Ids -> SUBSET D2]]
 ELemma(p, x, y) ==    \* plug = element variable y (functional)
   LET r == TbESubst(p, x, EV(y)) IN
@@ -71,6 +73,8 @@ CheckTrace(i) ==
   LET c == Cases[i] IN
   IF c.fn = "compose"
   THEN IF c.out # "ok" THEN ""                      \* some step raised: nothing to compare
+       ELSE IF LET a == Instantiate(Expand(c.p), Keys(c.d1), ExpSeq(Vals(c.d1))) IN
+               HasAbort(a) \/ HasAbort(Instantiate(a, Keys(c.d2), ExpSeq(Vals(c.d2)))) THEN ""   \* a constraint is violated
        ELSE IF HasAbort(Expand(c.r12)) \/ HasAbort(Expand(c.rc)) THEN ""
        ELSE IF Norm(Expand(c.r12)) # Norm(Expand(c.rc)) THEN "compose" ELSE ""
   ELSE
